@@ -3775,7 +3775,6 @@ static size_t ZSTDv07_decompressFrame(ZSTDv07_DCtx* dctx,
         {
         case bt_compressed:
             decodedSize = ZSTDv07_decompressBlock_internal(dctx, op, oend-op, ip, cBlockSize);
-            if (!ZSTDv07_isError(decodedSize) && decodedSize > ZSTDv07_BLOCKSIZE_ABSOLUTEMAX) return ERROR(corruption_detected);   /* ZSTD_decompressBound() counts on it */
             break;
         case bt_raw :
             decodedSize = ZSTDv07_copyRawBlock(op, oend-op, ip, cBlockSize);
@@ -3801,6 +3800,7 @@ static size_t ZSTDv07_decompressFrame(ZSTDv07_DCtx* dctx,
         if (blockProperties.blockType == bt_end) break;   /* bt_end */
 
         if (ZSTDv07_isError(decodedSize)) return decodedSize;
+        if (decodedSize > ZSTDv07_BLOCKSIZE_ABSOLUTEMAX) return ERROR(corruption_detected);   /* no block regenerates more than that, whatever its type */
         if (dctx->fParams.checksumFlag) XXH64_update(&dctx->xxhState, op, decodedSize);
         op += decodedSize;
         ip += cBlockSize;
@@ -4009,7 +4009,6 @@ size_t ZSTDv07_decompressContinue(ZSTDv07_DCtx* dctx, void* dst, size_t dstCapac
             {
             case bt_compressed:
                 rSize = ZSTDv07_decompressBlock_internal(dctx, dst, dstCapacity, src, srcSize);
-                if (!ZSTDv07_isError(rSize) && rSize > ZSTDv07_BLOCKSIZE_ABSOLUTEMAX) return ERROR(corruption_detected);   /* as the single-call decoder */
                 break;
             case bt_raw :
                 rSize = ZSTDv07_copyRawBlock(dst, dstCapacity, src, srcSize);
@@ -4026,6 +4025,7 @@ size_t ZSTDv07_decompressContinue(ZSTDv07_DCtx* dctx, void* dst, size_t dstCapac
             dctx->stage = ZSTDds_decodeBlockHeader;
             dctx->expected = ZSTDv07_blockHeaderSize;
             if (ZSTDv07_isError(rSize)) return rSize;
+            if (rSize > ZSTDv07_BLOCKSIZE_ABSOLUTEMAX) return ERROR(corruption_detected);   /* as the single-call decoder */
             dctx->previousDstEnd = (char*)dst + rSize;
             if (dctx->fParams.checksumFlag) XXH64_update(&dctx->xxhState, dst, rSize);
             return rSize;
